@@ -72,3 +72,10 @@ namespace PyRtC16
 /-- an exception class as the display-name code sees it: `__qualname__` (a str) and `__module__` (`none`: not a str) -/
 abbrev ExcType := C16.ExcType
 end PyRtC16
+
+namespace PyRtC16
+/-- an arbitrary object as `_some_str` sees it: `str(x)` returns a str (`some`) or raises (`none`) -/
+structure StrObj where
+  str? : Option Str
+deriving DecidableEq, Repr
+end PyRtC16
